@@ -263,8 +263,8 @@ MUTANTS = [
         (PR_H, "    if( is_right_child && my_parent->m_ref_count.load(std::memory_order_acquire) == 2 ) {",
          "    if( is_right_child && my_parent->m_ref_count.load(std::memory_order_relaxed) == 2 ) {")]),
     dict(name='c06-det-accepts-auto', prop='C06', clause='D3', edits=[
-        (PR_H, "//! Parallel iteration with deterministic reduction and static partitioner.",
-         "template<typename Range, typename Body>\n    __TBB_requires(tbb_range<Range> && parallel_reduce_body<Body, Range>)\nvoid parallel_deterministic_reduce(const Range& range, Body& body, const auto_partitioner&) {\n    parallel_reduce(range, body, auto_partitioner());\n}\n//! Parallel iteration with deterministic reduction and static partitioner.")]),
+        (PR_H, "//! Parallel iteration with deterministic reduction and static partitioner.\n/** @ingroup algorithms **/\ntemplate<typename Range, typename Body>\n    __TBB_requires(tbb_range<Range> && parallel_reduce_body<Body, Range>)\nvoid parallel_deterministic_reduce( const Range& range, Body& body, const static_partitioner& partitioner ) {",
+         "template<typename Range, typename Body>\n    __TBB_requires(tbb_range<Range> && parallel_reduce_body<Body, Range>)\nvoid parallel_deterministic_reduce(const Range& range, Body& body, const auto_partitioner&) {\n    parallel_reduce(range, body, auto_partitioner());\n}\n//! Parallel iteration with deterministic reduction and static partitioner.\n/** @ingroup algorithms **/\ntemplate<typename Range, typename Body>\n    __TBB_requires(tbb_range<Range> && parallel_reduce_body<Body, Range>)\nvoid parallel_deterministic_reduce( const Range& range, Body& body, const static_partitioner& partitioner ) {")]),
     dict(name='c06-scan-final-twice', prop='C06', clause='D4', edits=[
         ('include/oneapi/tbb/parallel_scan.h', "        if( m_is_final )\n            m_body(m_range, final_scan_tag());\n        else if( m_sum_slot )",
          "        if( m_is_final )\n            m_body(m_range, final_scan_tag());\n        if( m_sum_slot )")]),
